@@ -28,6 +28,8 @@ func init() {
 			{Name: "whiteouts-filtered-by-requirer", File: "artifact/image/layerscanning/image/image.go", Old: "		// realFilePath is where the file will be written to disk.", New: "		if isWhiteout && !img.config.Requirer.FileRequired(virtualPath, header.FileInfo()) {\n			continue\n		}\n		// realFilePath is where the file will be written to disk.", Rule: "D5-omissions", Site: "fillChainLayersWithFilesFromTar"},
 			{Name: "parents-not-populated-for-directories", File: "artifact/image/layerscanning/image/image.go", Old: "		populateEmptyDirectoryNodes(virtualPath, layerDir, dirPath, chainLayersToFill)\n", New: "		if header.Typeflag != tar.TypeDir {\n			populateEmptyDirectoryNodes(virtualPath, layerDir, dirPath, chainLayersToFill)\n		}\n", Rule: "D8-parents-populated", Site: "fillChainLayersWithFilesFromTar"},
 			{Name: "implicit-dirs-inserted-unguarded", File: "artifact/image/layerscanning/image/image.go", Old: "		fillChainLayersWithFileNode(chainLayersToFill, node)\n", New: "		for _, chainLayer := range chainLayersToFill {\n			if chainLayer.fileNodeTree.Get(runningDir) == nil {\n				_ = chainLayer.fileNodeTree.Insert(runningDir, node)\n			}\n		}\n", Rule: "D7-who-may-insert", Site: "populateEmptyDirectoryNodes"},
+			{Name: "repeated-path-rematerialised", File: "artifact/image/layerscanning/image/image.go", Old: "		if currentChainLayer.fileNodeTree.Get(virtualPath) != nil {\n			continue\n		}\n", New: "		if header.Typeflag == tar.TypeDir && currentChainLayer.fileNodeTree.Get(virtualPath) != nil {\n			continue\n		}\n", Rule: "D1-newest-wins", Site: "only-if-absent"},
+			{Name: "prune-last-layer-with-content", File: "artifact/image/layerscanning/image/image.go", Old: "	finalChainLayer := chainLayers[len(chainLayers)-1]\n	filesRequired := map[string]bool{}", New: "	finalIndex := len(chainLayers) - 1\n	for finalIndex > 0 && chainLayers[finalIndex].latestLayer.IsEmpty() {\n		finalIndex--\n	}\n	finalChainLayer := chainLayers[finalIndex]\n	filesRequired := map[string]bool{}", Rule: "D4-requirer-only-removes", Site: "prunes-the-last-chain-layer"},
 		},
 		Neutral: c04Neutral,
 	})
@@ -49,6 +51,134 @@ func runC04(p *Prog, r *Report) {
 	c04Omissions(p, r)
 	c17Immutable(p, r, "D6-nodes-immutable")
 	c04WhoInserts(p, r)
+	c04Materialise(p, r)
+}
+
+// c04Materialise: (a) an entry's handler (handleFile/handleDir/handleSymlink — the code that
+// writes the entry's bytes under the layer directory) runs only when the newest view being filled
+// has no node at the path yet: a second entry for a path must not overwrite the file a node of the
+// view already points to; (b) the requirer restriction prunes the last chain layer — the view that
+// is scanned — not an earlier one.
+func c04Materialise(p *Prog, r *Report) {
+	tl := p.Func(imgPkg, "fillChainLayersWithFilesFromTar")
+	if tl == nil {
+		r.Undecided("D1-newest-wins", "anchor:fillChainLayersWithFilesFromTar", "-", "not found")
+		return
+	}
+	fa := newFA(p, r, tl)
+	// guard: <current chain layer>.fileNodeTree.Get(virtualPath) == nil
+	absent := func(c ssa.Value) (bool, bool) {
+		op, x, y, ok := cmpNorm(c)
+		if !ok || (op != token.EQL && op != token.NEQ) {
+			return false, false
+		}
+		isGet := func(v ssa.Value) bool {
+			call, _ := callValue(v)
+			if call == nil || !treeCall("Get")(call) {
+				return false
+			}
+			_, f, _, ok := fieldOf(loadAddr(call.Call.Args[0]))
+			return ok && f == "fileNodeTree"
+		}
+		if (isGet(x) && isNilConst(y)) || (isGet(y) && isNilConst(x)) {
+			return true, op == token.EQL
+		}
+		return false, false
+	}
+	holds, _ := guardEdges(tl, absent)
+	n := 0
+	forEachInstr(tl, func(b *ssa.BasicBlock, _ int, in ssa.Instruction) {
+		c := callOf(in)
+		if c == nil || c.StaticCallee() == nil {
+			return
+		}
+		switch c.StaticCallee().Name() {
+		case "handleFile", "handleDir", "handleSymlink":
+		default:
+			return
+		}
+		n++
+		hdr := loopHeaderOf(b)
+		ok := len(holds) > 0 && hdr != nil && !reachable(hdr, edgesOf(holds), nil)[b]
+		r.Check(ok, "D1-newest-wins", fa.key+":"+c.StaticCallee().Name()+"-only-if-absent", p.Pos(in.Pos()), "the entry is materialised only when the view has no node at its path", "a tar entry's content is written under the layer directory although the view being filled already has a node for that path (a path repeated within one layer, or seen on a second pass): the file the existing node points to is overwritten in place while the node keeps the first entry's size and mode")
+	})
+	r.Instances("D1-newest-wins", "entry handlers called from the tar loop", n, 3)
+
+	rm := p.Func(imgPkg, "removeUnnecessaryFileNodes")
+	if rm == nil {
+		return
+	}
+	// every fileNodeTree used (Walk / Remove / Get) belongs to chainLayers[len(chainLayers)-1]
+	okAll, m := true, 0
+	for _, f := range withAnon(rm) {
+		forEachInstr(f, func(_ *ssa.BasicBlock, _ int, in ssa.Instruction) {
+			c, ok := in.(*ssa.Call)
+			if !ok || !(treeCall("Walk")(c) || treeCall("Remove")(c)) {
+				return
+			}
+			m++
+			_, fld, base, ok := fieldOf(loadAddr(c.Call.Args[0]))
+			if !ok || fld != "fileNodeTree" {
+				okAll = false
+				return
+			}
+			// base: load of the local / captured variable holding chainLayers[len-1]
+			src := base
+			for d := 0; d < 6; d++ {
+				switch x := src.(type) {
+				case *ssa.UnOp:
+					src = x.X
+					continue
+				case *ssa.FreeVar:
+					// captured variable of the enclosing function: find its binding
+					if par := f.Parent(); par != nil {
+						forEachInstr(par, func(_ *ssa.BasicBlock, _ int, in2 ssa.Instruction) {
+							if mc, ok := in2.(*ssa.MakeClosure); ok && mc.Fn == ssa.Value(f) {
+								for i, fv := range f.FreeVars {
+									if fv == x {
+										src = mc.Bindings[i]
+									}
+								}
+							}
+						})
+					}
+					if _, still := src.(*ssa.FreeVar); still {
+						d = 6
+					}
+					continue
+				case *ssa.Alloc:
+					ss := storesTo(x)
+					if len(ss) == 1 {
+						src = ss[0]
+						continue
+					}
+				}
+				break
+			}
+			ia, isIA := src.(*ssa.IndexAddr)
+			if !isIA {
+				if u, ok := src.(*ssa.UnOp); ok {
+					ia, isIA = u.X.(*ssa.IndexAddr)
+				}
+			}
+			good := false
+			if isIA && ia.X == ssa.Value(rm.Params[0]) {
+				if bo, ok := ia.Index.(*ssa.BinOp); ok && bo.Op == token.SUB {
+					if k, isK := constInt(bo.Y); isK && k == 1 {
+						if lc, ok := bo.X.(*ssa.Call); ok {
+							if bi, ok := lc.Call.Value.(*ssa.Builtin); ok && bi.Name() == "len" && lc.Call.Args[0] == ssa.Value(rm.Params[0]) {
+								good = true
+							}
+						}
+					}
+				}
+			}
+			if !good {
+				okAll = false
+			}
+		})
+	}
+	r.Check(okAll && m > 0, "D4-requirer-only-removes", fnKey(rm)+":prunes-the-last-chain-layer", p.Pos(rm.Pos()), "walks and prunes chainLayers[len(chainLayers)-1]", "the requirer restriction prunes a chain layer other than the last one (e.g. the last layer 'with content'): the view that is actually scanned keeps nodes whose files were deleted from disk, or is not restricted at all")
 }
 
 // c04WhoInserts: D7 — in package image, a chain layer's tree (field fileNodeTree of chainLayer) is
